@@ -9,7 +9,8 @@
      include/net/tcp_states.h: 1 ESTABLISHED .. 11 CLOSING
      proc(5): /proc/<pid>/fd/<n> -> "socket:[<inode>]"
    The only thing imported from the model file is the shape of the answer (row, addr) and of the
-   model's input (listing, link_res); nothing here mentions tmap / conn_tmap / TCP_STATUSES. *)
+   model's input (listing, link_res).  The generated tables appear only in [conn_admits] (what conn_tmap says,
+   compared with the documented table by a theorem); the demanded answer never mentions them. *)
 From PV Require Export C11.Model.
 
 (* ------------------------------------------------------------ numbers as the kernel prints them *)
